@@ -6,6 +6,8 @@ import (
 	"strings"
 	"time"
 
+	"github.com/lindb/common/pkg/fasttime"
+
 	"github.com/lindb/lindb/internal/vbox"
 	"github.com/lindb/lindb/internal/vevid"
 	"github.com/lindb/lindb/models"
@@ -29,6 +31,42 @@ type Case struct {
 	Menu  string `json:"menu"` // quick | thorough
 	// Only is set in replays of a single failing query (empty = whole menu).
 	Only *Query `json:"only,omitempty"`
+	// Special names the scripted scenarios (special.go) in a replay.
+	Special string `json:"special,omitempty"`
+}
+
+// losesNamesAtReopen: the history flushes metadata while nothing new was created since the previous flush, creates a
+// new name afterwards (the first write of series b: tag value, series) and reopens the engine later. On the unchanged
+// tree every metadata flush after an empty one is a no-op (clause empty-meta-flush-stops-persistence).
+func (c Case) losesNamesAtReopen() bool {
+	poison, newSince, lost, seenB, first := false, false, false, false, true
+	for _, s := range c.Steps {
+		switch s.Op {
+		case "w":
+			isNew := first || (s.Series == "b" && !seenB)
+			first = false
+			if s.Series == "b" {
+				seenB = true
+			}
+			if isNew {
+				newSince = true
+				if poison {
+					lost = true
+				}
+			}
+		case "F":
+			if !newSince {
+				poison = true
+			}
+			newSince = false
+		case "R":
+			if lost {
+				return true
+			}
+			poison, newSince = false, false
+		}
+	}
+	return false
 }
 
 // values of the i-th write: distinct powers of two (every subset has its own sum) in a non-monotone order
@@ -98,6 +136,11 @@ type world struct {
 	queryNs int64
 	queries int64
 	stepNs  int64
+	// lastCreate is a fast-clock reading taken after the last write that may have created a memory database
+	lastCreate int64
+	// flushedSinceOpen: some history flushed metadata since the engine was (re)opened
+	flushedSinceOpen bool
+	healReopens      int64
 }
 
 const shardID = models.ShardID(1)
@@ -132,17 +175,51 @@ func (w *world) housekeeping() {
 	}
 }
 
+// newTick waits until the 5 ms fast clock (github.com/lindb/common/pkg/fasttime) has advanced past the reading
+// taken after the previous memdb-creating write: the main enumeration fixes "every memory database of the shard is
+// created in its own clock tick" (memdb.createdTime is the key of its per-metric slot range); the opposite choice is
+// the scripted scenario same-tick (special.go).
+func (w *world) newTick() {
+	for fasttime.UnixNano() <= w.lastCreate {
+		time.Sleep(200 * time.Microsecond)
+	}
+}
+
+// isolate makes a history that contains a reopen independent of the histories that ran before it in this process:
+// what an earlier history left in the in-memory metadata / index stores is persisted and reloaded first.
+func (w *world) isolate(c Case) error {
+	has := false
+	for _, s := range c.Steps {
+		if s.Op == "R" {
+			has = true
+		}
+	}
+	if !has || !w.flushedSinceOpen {
+		return nil
+	}
+	w.healReopens++
+	w.flushedSinceOpen = false
+	return w.box.ReopenEngine()
+}
+
 // apply runs the history on the real engine and on the model.
 func (w *world) apply(c Case, metric string) (*model, error) {
 	m := newModel()
 	wi := 0
 	t0 := time.Now()
 	defer func() { w.stepNs += time.Since(t0).Nanoseconds() }()
+	if err := w.isolate(c); err != nil {
+		return nil, fmt.Errorf("reopen before the history: %w", err)
+	}
 	for i, s := range c.Steps {
 		switch s.Op {
 		case "w":
 			t := slotOf(s.Slot)
 			v := writeValues[wi]
+			creates := m.fams[t/familyMs].mem == nil
+			if creates {
+				w.newTick()
+			}
 			p := vbox.MultiPoint{Metric: metric, Tags: map[string]string{"host": s.Series},
 				Timestamp: w.base + t + int64(wi+1)*1000}
 			for _, ft := range fieldTypes {
@@ -151,9 +228,13 @@ func (w *world) apply(c Case, metric string) (*model, error) {
 			if err := w.box.WriteMulti(shardID, p); err != nil {
 				return nil, fmt.Errorf("step %d write: %w", i, err)
 			}
+			if creates {
+				w.lastCreate = fasttime.UnixNano()
+			}
 			m.write(s.Series, t, v)
 			wi++
 		case "F":
+			w.flushedSinceOpen = true
 			if err := w.box.Flush(shardID, w.bothFamilies()); err != nil {
 				return nil, fmt.Errorf("step %d flush: %w", i, err)
 			}
@@ -172,6 +253,7 @@ func (w *world) apply(c Case, metric string) (*model, error) {
 			if err := w.box.ReopenEngine(); err != nil {
 				return nil, fmt.Errorf("step %d reopen: %w", i, err)
 			}
+			w.flushedSinceOpen = false
 			m.reopen() // Close flushes every memory database
 		default:
 			return nil, fmt.Errorf("unknown op %q", s.Op)
